@@ -219,6 +219,42 @@ Theorem no_attempt_after_stop : forall sc script s,
   forall k st', nth_error (steps_of sc script) (S k) = Some st' -> s_start st' < s.
 Proof. exact no_attempt_after_stop_l. Qed.
 
+(* ---- several requests through one retry sender (sequentially or concurrently) ---------------------------- *)
+
+(* the run of a request depends on that request, the configuration and the shutdown instant only — not
+   on the other requests that go through the same sender, before or at the same time *)
+Theorem sends_independent : forall c timeout T rs i r,
+  nth_error rs i = Some r ->
+  nth_error (sender_runs c timeout T rs) i = Some (run (request_scenario c timeout T r) (rq_script r)).
+Proof. exact sends_independent_l. Qed.
+
+(* every request starts its back-off from the initial interval, at its own instant 0 (its own elapsed budget) *)
+Theorem fresh_backoff_every_request : forall c timeout T rs i r k st,
+  nth_error rs i = Some r ->
+  nth_error (steps_of (request_scenario c timeout T r) (rq_script r)) k = Some st ->
+  s_cur st = cur_seq c k /\ (k = 0%nat -> s_start st = 0).
+Proof. exact fresh_backoff_every_request_l. Qed.
+
+(* shutdown at the absolute instant t: NO request of the sender starts a retry at or after t ... *)
+Theorem no_attempt_after_stop_any_request : forall c timeout t rs i r,
+  nth_error rs i = Some r ->
+  forall k st', nth_error (steps_of (request_scenario c timeout (Some t) r) (rq_script r)) (S k) = Some st' ->
+  rq_start r + s_start st' < t.
+Proof. exact no_attempt_after_stop_any_request_l. Qed.
+
+(* ... and EVERY request whose wait is reached and ends at or after t (context not ending first) returns the
+   shutdown-classified error — however many requests are waiting, and also requests that fail after t *)
+Theorem every_waiting_request_gets_shutdown : forall c timeout t rs i r k st,
+  nth_error rs i = Some r ->
+  let sc := request_scenario c timeout (Some t) r in
+  nth_error (steps_of sc (rq_script r)) k = Some st -> reaches_wait sc st ->
+  rq_start r + s_end st <= rq_start r + s_end st + s_delay st ->
+  t <= rq_start r + s_end st + s_delay st ->
+  (forall cd, ctx_done sc = Some cd -> Z.max (s_end st) (t - rq_start r) < Z.max (s_end st) cd) ->
+  verdict_of sc (rq_script r) = VShutdown /\ length (steps_of sc (rq_script r)) = S k /\
+  final_is_shutdown sc (rq_script r) = true.
+Proof. exact every_waiting_request_gets_shutdown_l. Qed.
+
 (* ---- per-attempt timeout -------------------------------------------------------------------------------------- *)
 Theorem timeout_per_attempt : forall sc script k st,
   nth_error (steps_of sc script) k = Some st ->
@@ -251,4 +287,8 @@ Print Assumptions shutdown_error_wraps_last.
 Print Assumptions shutdown_only_when_stopped.
 Print Assumptions cancel_in_wait.
 Print Assumptions no_attempt_after_stop.
+Print Assumptions sends_independent.
+Print Assumptions fresh_backoff_every_request.
+Print Assumptions no_attempt_after_stop_any_request.
+Print Assumptions every_waiting_request_gets_shutdown.
 Print Assumptions timeout_per_attempt.
